@@ -2,6 +2,7 @@ import BoltonsVerif.C05.Script
 import BoltonsVerif.C05.AcceptProofs
 import BoltonsVerif.C05.AcceptMore
 import BoltonsVerif.C05.AcceptHist
+import BoltonsVerif.C05.AcceptRef
 import BoltonsVerif.C04.Props
 import BoltonsVerif.Generated.C05_Consts
 /-
@@ -728,6 +729,43 @@ theorem history_last_completed_save_wins (e : Nat) (fs0 fs : FS) (pre post : Lis
     rw [(hrest.unpublished_dest hs hnp).1]
     exact hobs.published_dest hpub
 
+/-! ### the two layers meet -/
+
+/-- **Every run of the transliteration is an accepted trace.**  For every configuration, initial state,
+    with-block script (any sequence of write / flush / close calls, raising or not) and EVERY fault plan
+    (any number of failing calls, any errno or exception class; no other process interfering, no injected
+    ENOENT - which `os.stat` answers by "absent"): what `runScript` records of its own calls (`M.obs`: every
+    call that went through with its effect, every call that reported an error with its flags) is a trace
+    that `Accept` accepts - outside the one region excluded throughout (overwrite=False: the `link`
+    succeeded and the `unlink` of the part file after it failed, i.e. an exception although published).
+    So `Accept` is satisfiable under arbitrary faults, and the `accepted_*` theorems apply to the very runs
+    the theorems about `runScript` speak of.  (The check compares `M.obs` token by token with the trace
+    recorded on the real code in every case.) -/
+theorem transliteration_runs_are_accepted (cfg : Cfg) (sc : Script) (plan : Plan) (fs0 : FS) (e : Nat)
+    (hne : ∀ k, plan k ≠ .appear) (hnn : ∀ k, plan k ≠ .fail ENOENT)
+    (hreg : out cfg sc plan fs0 e = .ok ∨ (fin cfg sc plan fs0 e).published = false) :
+    Accept cfg sc.raises (decide (out cfg sc plan fs0 e = .ok)) sc.content fs0.umask fs0.destMode
+      (fin cfg sc plan fs0 e).obs = true :=
+  runScript_accepted cfg sc plan fs0 e hne hnn hreg
+
+/-- for EVERY plan (interference included) the recorded observations are faithful bookkeeping: their
+    successful events are the recorded events (up to calls without effect), a listed failure is counted
+    as an error, a cleanup unlink that the plan made fail shows as such, and `appear` is recorded exactly
+    when the other process acted -/
+theorem transliteration_observations_faithful (cfg : Cfg) (sc : Script) (plan : Plan) (fs0 : FS) (e : Nat) :
+    (oks (fin cfg sc plan fs0 e).obs).filter notNoop = (fin cfg sc plan fs0 e).tr.filter notNoop ∧
+    (listedFailed (fin cfg sc plan fs0 e).obs = true → 0 < (fin cfg sc plan fs0 e).errs) ∧
+    ((fin cfg sc plan fs0 e).cleanupFaulted = true → unlinkFaulted (fin cfg sc plan fs0 e).obs = true) ∧
+    hasAppear (fin cfg sc plan fs0 e).obs = (fin cfg sc plan fs0 e).envDone :=
+  let t := runScript_T cfg sc plan fs0 e
+  ⟨t.oks, t.lf, t.cf, t.env⟩
+
+/-- **Without `overwrite_part` the transliteration never removes a part file it did not create**: under
+    every plan no unlink of the part file precedes its creation -/
+theorem no_unlink_before_creation (cfg : Cfg) (sc : Script) (plan : Plan) (fs0 : FS) (e : Nat)
+    (hop : cfg.overwritePart = false) : headUnlink (fin cfg sc plan fs0 e).tr = false :=
+  runScript_headUnlink cfg sc plan fs0 e hop
+
 /-- **Probes are free**: observations without effect on the automaton - successful calls without effect
     on the two names (stat, lstat, fdopen, fcntl, close of a closed object ...) and calls that failed on
     their own without being a listed step (an `unlink` / `stat` answering ENOENT) - can be inserted or
@@ -764,6 +802,12 @@ example : (replay (M.start fsEx 1) obsFsyncFails).isSome = true ∧ failedBefore
 example : Accept {} false true [78, 69, 87] 0o022 (some 0o640) obsOtherOrder = true ∧
     (replay (M.start fsEx 1) obsOtherOrder).isSome = true ∧ publishes (oks obsOtherOrder) = true ∧
     hasAppear obsOtherOrder = false := by decide
+-- the transliteration's own record of the run in which fsync fails (fsEx: destination present, mode 0o640) is the
+-- trace `obsFsyncFails` above - and it is accepted; the excluded region is not empty
+example : (fin {} bodyEx (failAt 7 5) fsEx 1).obs = obsFsyncFails ∧
+    (fin {} bodyEx (failAt 7 5) fsEx 1).published = false := by decide
+example : out { overwrite := false, overwritePart := true } bodyEx (failAt 10 1) fsEx2 1 ≠ .ok ∧
+    (fin { overwrite := false, overwritePart := true } bodyEx (failAt 10 1) fsEx2 1).published = true := by decide
 -- a history: the save whose fsync fails, then the completed one (from the state the first left)
 def mEx1 : M := (replay (M.start fsEx 1) obsFsyncFails).get (by decide)
 def mEx2 : M := (replay (M.start mEx1.fs 1) obsOtherOrder).get (by decide)
